@@ -64,7 +64,8 @@ def leaves_st(with_bytes=True, bits64=False, surrogates=False):
 
 def key_st(surrogates=False):
     return text_st(max_size=5, surrogates=surrogates).filter(
-        lambda k: k != '_placeholder')
+        lambda k: k not in ('_placeholder', '__tag'))   # '__tag': the
+    #   harness' own marker argument in C05 / C09 / C14 scenarios
 
 
 def tree_st(with_bytes=True, bits64=False, max_leaves=12, surrogates=False):
